@@ -121,13 +121,20 @@ func c18Run(c *caseCtx) (res caseResult) {
 				cur[m.ID] = true
 			}
 		}
-		dups := 0
+		dups, moved := 0, 0
 		for _, m := range universe {
 			if cur[m.ID] {
 				// fresh objects each time, as a provider decoding from the wire would hand over
-				snap = append(snap, m.CloneVT())
+				mm := m.CloneVT()
+				if m.ID != "self" && r.Intn(8) == 0 {
+					// the member is reported under another address than last time (it was restarted with
+					// a fixed id): members are identified by id, it has stayed
+					mm.Host = fmt.Sprintf("10.0.%d.%s:4000", 1+s%200, m.ID[1:])
+					moved++
+				}
+				snap = append(snap, mm)
 				if r.Intn(6) == 0 {
-					snap = append(snap, m.CloneVT())
+					snap = append(snap, mm.CloneVT())
 					dups++
 				}
 			}
@@ -152,9 +159,9 @@ func c18Run(c *caseCtx) (res caseResult) {
 		}
 		sort.Strings(joined)
 		sort.Strings(left)
-		script = append(script, fmt.Sprintf("snapshot %v (dups %d) => +%v -%v", sortedKeys(cur), dups, joined, left))
-		shape = append(shape, fmt.Sprintf("%d/%d/%d", len(joined), len(left), dups))
-		if len(left) > 0 || dups > 0 {
+		script = append(script, fmt.Sprintf("snapshot %v (dups %d, under a new address %d) => +%v -%v", sortedKeys(cur), dups, moved, joined, left))
+		shape = append(shape, fmt.Sprintf("%d/%d/%d/%d", len(joined), len(left), dups, moved))
+		if len(left) > 0 || dups > 0 || moved > 0 {
 			nontrivial = true
 		}
 		// Members()
